@@ -18,3 +18,191 @@ package abi
 //@   ensures[C18] len(data) == 16 <==> err == nil
 //@   ensures[C18] err == nil ==> result.Data1 == le32(data, 0) && result.Data2 == le16(data, 4) && result.Data3 == le16(data, 6)
 //@   ensures[C18] err == nil ==> forall(i, 0 <= i && i < 8 ==> result.Data4[i] == bytesAt(data, 8+i))
+
+// convertEFIGUID stores the three integer fields big-endian (RFC 4122 text order).
+//@ func convertEFIGUID
+//@   assigns nothing
+//@   sweep[C18]
+//@   ensures[C18] be32(result, 0) == guid.Data1 && be16(result, 4) == guid.Data2 && be16(result, 6) == guid.Data3
+//@   ensures[C18] forall(i, 0 <= i && i < 8 ==> result[8+i] == guid.Data4[i])
+
+//@ func FromEFIGUID
+//@   assigns nothing
+//@   sweep[C08,C18]
+//@   ensures[C18] len(efiguid) == 16 <==> err == nil
+//@   ensures[C18] err == nil ==> be32(result0, 0) == le32(efiguid, 0) && be16(result0, 4) == le16(efiguid, 4) && be16(result0, 6) == le16(efiguid, 6)
+//@   ensures[C18] err == nil ==> forall(i, 0 <= i && i < 8 ==> result0[8+i] == bytesAt(efiguid, 8+i))
+
+//@ func PutUUID
+//@   assigns data[*]
+//@   sweep[C08,C18]
+//@   ensures[C18] len(data) < 16 <==> err != nil
+//@   ensures[C18] err == nil ==> le32(data, 0) == be32(guid, 0) && le16(data, 4) == be16(guid, 4) && le16(data, 6) == be16(guid, 6)
+//@   ensures[C18] err == nil ==> forall(i, 0 <= i && i < 8 ==> bytesAt(data, 8+i) == guid[8+i])
+//@   ensures[C18] forall(i, 16 <= i && i < len(data) ==> bytesAt(data, i) == old(bytesAt(data, i)))
+//@   ensures[C18] err != nil ==> forall(i, 0 <= i && i < len(data) ==> bytesAt(data, i) == old(bytesAt(data, i)))
+
+// FwGUIDEntry: u16 size at 0, EFI GUID at 2; 18 bytes.
+//@ func (*FwGUIDEntry).Put
+//@   requires f != nil
+//@   assigns data[*]
+//@   sweep[C08,C18]
+//@   ensures[C18] len(data) < 18 <==> err != nil
+//@   ensures[C18] err == nil ==> le16(data, 0) == f.Size && le32(data, 2) == be32(f.GUID, 0) && le16(data, 6) == be16(f.GUID, 4) && le16(data, 8) == be16(f.GUID, 6)
+//@   ensures[C18] err == nil ==> forall(i, 0 <= i && i < 8 ==> bytesAt(data, 10+i) == f.GUID[8+i])
+//@   ensures[C18] forall(i, 18 <= i && i < len(data) ==> bytesAt(data, i) == old(bytesAt(data, i)))
+
+//@ func (*FwGUIDEntry).PopulateFromBytes
+//@   requires f != nil && len(data) >= 18
+//@   assigns f.Size, f.GUID
+//@   sweep[C08,C18]
+//@   ensures[C18] err == nil && f.Size == le16(data, 0) && be32(f.GUID, 0) == le32(data, 2) && be16(f.GUID, 4) == le16(data, 6) && be16(f.GUID, 6) == le16(data, 8)
+//@   ensures[C18] forall(i, 0 <= i && i < 8 ==> f.GUID[8+i] == bytesAt(data, 10+i))
+
+// SevMetadataSection: three u32 (address, length, kind); 12 bytes.
+//@ func (*SevMetadataSection).Put
+//@   requires s != nil
+//@   assigns data[*]
+//@   sweep[C08,C18]
+//@   ensures[C18] len(data) < 12 <==> err != nil
+//@   ensures[C18] err == nil ==> le32(data, 0) == s.Address && le32(data, 4) == s.Length && le32(data, 8) == s.Kind
+//@   ensures[C18] forall(i, 12 <= i && i < len(data) ==> bytesAt(data, i) == old(bytesAt(data, i)))
+//@   ensures[C18] err != nil ==> forall(i, 0 <= i && i < len(data) ==> bytesAt(data, i) == old(bytesAt(data, i)))
+
+//@ func SevMetadataSectionFromBytes
+//@   requires len(guidBlock) >= 12
+//@   assigns nothing
+//@   sweep[C08,C18]
+//@   ensures[C18] result != nil && fresh(result) && result.Address == le32(guidBlock, 0) && result.Length == le32(guidBlock, 4) && result.Kind == le32(guidBlock, 8)
+
+// SevMetadata: four u32 (signature, length, version, sections); 16 bytes.
+//@ func (*SevMetadata).Put
+//@   requires s != nil
+//@   assigns data[*]
+//@   sweep[C08,C18]
+//@   ensures[C18] len(data) < 16 <==> err != nil
+//@   ensures[C18] err == nil ==> le32(data, 0) == s.Signature && le32(data, 4) == s.Length && le32(data, 8) == s.Version && le32(data, 12) == s.Sections
+//@   ensures[C18] forall(i, 16 <= i && i < len(data) ==> bytesAt(data, i) == old(bytesAt(data, i)))
+//@   ensures[C18] err != nil ==> forall(i, 0 <= i && i < len(data) ==> bytesAt(data, i) == old(bytesAt(data, i)))
+
+//@ func SevMetadataFromBytes
+//@   requires len(guidBlock) >= 16
+//@   assigns nothing
+//@   sweep[C08,C18]
+//@   ensures[C18] result != nil && fresh(result) && result.Signature == le32(guidBlock, 0) && result.Length == le32(guidBlock, 4) && result.Version == le32(guidBlock, 8) && result.Sections == le32(guidBlock, 12)
+
+// MetadataOffset: u32 offset then a FwGUIDEntry; 22 bytes.
+//@ func (*MetadataOffset).Put
+//@   requires s != nil
+//@   assigns data[*]
+//@   sweep[C08,C18]
+//@   ensures[C18] len(data) < 22 <==> err != nil
+//@   ensures[C18] err == nil ==> le32(data, 0) == s.Offset && le16(data, 4) == s.GUIDEntry.Size && le32(data, 6) == be32(s.GUIDEntry.GUID, 0) && le16(data, 10) == be16(s.GUIDEntry.GUID, 4) && le16(data, 12) == be16(s.GUIDEntry.GUID, 6)
+//@   ensures[C18] err == nil ==> forall(i, 0 <= i && i < 8 ==> bytesAt(data, 14+i) == s.GUIDEntry.GUID[8+i])
+//@   ensures[C18] forall(i, 22 <= i && i < len(data) ==> bytesAt(data, i) == old(bytesAt(data, i)))
+
+//@ func MetadataOffsetFromBytes
+//@   requires len(guidBlock) >= 22
+//@   assigns nothing
+//@   sweep[C08,C18]
+//@   ensures[C18] err == nil && result0 != nil && fresh(result0) && result0.Offset == le32(guidBlock, 0) && result0.GUIDEntry.Size == le16(guidBlock, 4)
+//@   ensures[C18] be32(result0.GUIDEntry.GUID, 0) == le32(guidBlock, 6) && be16(result0.GUIDEntry.GUID, 4) == le16(guidBlock, 10) && be16(result0.GUIDEntry.GUID, 6) == le16(guidBlock, 12)
+//@   ensures[C18] forall(i, 0 <= i && i < 8 ==> result0.GUIDEntry.GUID[8+i] == bytesAt(guidBlock, 14+i))
+
+// TDXMetadataDescriptor: four u32; 16 bytes.
+//@ func TDXMetadataDescriptorFromBytes
+//@   assigns nothing
+//@   sweep[C08,C18]
+//@   ensures[C18] len(data) < 16 <==> err != nil
+//@   ensures[C18] err == nil ==> result0 != nil && fresh(result0) && result0.Signature == le32(data, 0) && result0.Length == le32(data, 4) && result0.Version == le32(data, 8) && result0.SectionCount == le32(data, 12)
+
+//@ func (*TDXMetadataDescriptor).Put
+//@   requires h != nil
+//@   assigns data[*]
+//@   sweep[C08,C18]
+//@   ensures[C18] len(data) < 16 <==> err != nil
+//@   ensures[C18] err == nil ==> le32(data, 0) == h.Signature && le32(data, 4) == h.Length && le32(data, 8) == h.Version && le32(data, 12) == h.SectionCount
+//@   ensures[C18] forall(i, 16 <= i && i < len(data) ==> bytesAt(data, i) == old(bytesAt(data, i)))
+//@   ensures[C18] err != nil ==> forall(i, 0 <= i && i < len(data) ==> bytesAt(data, i) == old(bytesAt(data, i)))
+
+// TDXMetadataSection: u32 u32 u64 u64 u32 u32; 32 bytes.
+//@ func TDXMetadataSectionFromBytes
+//@   assigns nothing
+//@   sweep[C08,C18]
+//@   ensures[C18] len(data) < 32 <==> err != nil
+//@   ensures[C18] err == nil ==> result0 != nil && fresh(result0) && result0.DataOffset == le32(data, 0) && result0.DataSize == le32(data, 4) && result0.MemoryBase == le64(data, 8) && result0.MemorySize == le64(data, 16) && result0.SectionType == le32(data, 24) && result0.Attributes == le32(data, 28)
+
+//@ func (*TDXMetadataSection).Put
+//@   requires s != nil
+//@   assigns data[*]
+//@   sweep[C08,C18]
+//@   ensures[C18] len(data) < 32 <==> err != nil
+//@   ensures[C18] err == nil ==> le32(data, 0) == s.DataOffset && le32(data, 4) == s.DataSize && le64(data, 8) == s.MemoryBase && le64(data, 16) == s.MemorySize && le32(data, 24) == s.SectionType && le32(data, 28) == s.Attributes
+//@   ensures[C18] forall(i, 32 <= i && i < len(data) ==> bytesAt(data, i) == old(bytesAt(data, i)))
+//@   ensures[C18] err != nil ==> forall(i, 0 <= i && i < len(data) ==> bytesAt(data, i) == old(bytesAt(data, i)))
+
+// SevEsResetBlock: u32 addr, u16 size, EFI GUID; 22 bytes. Decoding is strict on the length.
+//@ func SevEsResetBlockFromBytes
+//@   assigns nothing
+//@   sweep[C08,C18]
+//@   ensures[C18] len(data) == 22 <==> err == nil
+//@   ensures[C18] err == nil ==> result0 != nil && fresh(result0) && result0.Addr == le32(data, 0) && result0.Size == le16(data, 4) && len(result0.Guid) == 16
+//@   ensures[C18] err == nil ==> be32(result0.Guid, 0) == le32(data, 6) && be16(result0.Guid, 4) == le16(data, 10) && be16(result0.Guid, 6) == le16(data, 12)
+//@   ensures[C18] err == nil ==> forall(i, 0 <= i && i < 8 ==> bytesAt(result0.Guid, 8+i) == bytesAt(data, 14+i))
+
+// (the GUID bytes are read after the first fields are written, so source and destination must not share memory)
+//@ func PutSevEsResetBlock
+//@   requires s != nil && ref(s.Guid) != ref(data)
+//@   assigns data[*]
+//@   sweep[C08,C18]
+//@   ensures[C18] len(data) < 22 ==> err != nil
+//@   ensures[C18] err == nil <==> len(data) >= 22 && len(s.Guid) == 16
+//@   ensures[C18] err == nil ==> le32(data, 0) == s.Addr && le16(data, 4) == s.Size % 65536
+//@   ensures[C18] err == nil ==> le32(data, 6) == be32(s.Guid, 0) && le16(data, 10) == be16(s.Guid, 4) && le16(data, 12) == be16(s.Guid, 6)
+//@   ensures[C18] err == nil ==> forall(i, 0 <= i && i < 8 ==> bytesAt(data, 14+i) == bytesAt(s.Guid, 8+i))
+//@   ensures[C18] forall(i, 22 <= i && i < len(data) ==> bytesAt(data, i) == old(bytesAt(data, i)))
+
+// TDXMetadata: descriptor followed by SectionCount 32-byte sections. The decoder refuses a count the data cannot
+// hold (compared without wrap), allocates in proportion to the data, and decodes section a from offset 16+32a.
+//@ func TDXMetadataFromBytes
+//@   assigns nothing
+//@   modifies rdLeft, brSrc
+//@   sweep[C08,C18]
+//@   alloc 64 * len(data) + 1024
+//@   ghostparam a Int
+//@   ensures[C18] len(data) < 16 ==> err != nil
+//@   ensures[C18] err == nil <==> len(data) >= 16 && 32 * le32(data, 12) <= len(data) - 16
+//@   ensures[C18] err == nil ==> result0 != nil && fresh(result0) && result0.Header != nil && fresh(result0.Header) && len(result0.Sections) == le32(data, 12)
+//@   ensures[C18] err == nil ==> result0.Header.Signature == le32(data, 0) && result0.Header.Length == le32(data, 4) && result0.Header.Version == le32(data, 8) && result0.Header.SectionCount == le32(data, 12)
+//@   ensures[C18] err == nil && 0 <= a && a < len(result0.Sections) ==> result0.Sections[a] != nil && fresh(result0.Sections[a])
+//@   ensures[C18] err == nil && 0 <= a && a < len(result0.Sections) ==> result0.Sections[a].DataOffset == le32(data, 16+32*a) && result0.Sections[a].DataSize == le32(data, 20+32*a) && result0.Sections[a].MemoryBase == le64(data, 24+32*a) && result0.Sections[a].MemorySize == le64(data, 32+32*a) && result0.Sections[a].SectionType == le32(data, 40+32*a) && result0.Sections[a].Attributes == le32(data, 44+32*a)
+//@   loop 1 invariant 0 <= i && i <= hdr.SectionCount && len(sections) == i && (ref(sections) == 0 || fresh(sections)) && alloc <= 64 * i + 256 && unchanged(content(data))
+//@   loop 1 invariant rdLeft[buf] == len(data) - 16 - 32 * i && len(brSrc[buf]) == rdLeft[buf] && ref(brSrc[buf]) == ref(data) && off(brSrc[buf]) == off(data) + 16 + 32 * i
+//@   loop 1 invariant 0 <= a && a < i ==> sections[a] != nil && fresh(sections[a])
+//@   loop 1 invariant 0 <= a && a < i ==> sections[a].DataOffset == le32(data, 16+32*a) && sections[a].DataSize == le32(data, 20+32*a) && sections[a].MemoryBase == le64(data, 24+32*a) && sections[a].MemorySize == le64(data, 32+32*a) && sections[a].SectionType == le32(data, 40+32*a) && sections[a].Attributes == le32(data, 44+32*a)
+//@   loop 1 decreases[C08] hdr.SectionCount - i
+
+//@ func (*TDXMetadata).Size
+//@   requires m != nil && m.Header != nil
+//@   assigns nothing
+//@   sweep[C08,C18]
+//@   ensures[C18] result == (16 + 32 * m.Header.SectionCount) % 4294967296
+
+// Put writes the descriptor at 0 and section a at 16+32a, and nothing beyond 16+32*SectionCount. (For fewer than
+// 2^26 sections, so that the 32-bit size does not wrap; nil section pointers are the caller's error.)
+//@ func (*TDXMetadata).Put
+//@   requires m != nil && len(m.Sections) < 67108864 && len(data) < 4294967296
+//@   requires forall(k, 0 <= k && k < len(m.Sections) ==> m.Sections[k] != nil)
+//@   assigns data[*]
+//@   sweep[C08,C18]
+//@   ghostparam a Int
+//@   ensures[C18] err == nil <==> m.Header != nil && m.Header.SectionCount == len(m.Sections) && len(data) >= 16 + 32 * len(m.Sections)
+//@   ensures[C18] err == nil ==> le32(data, 0) == m.Header.Signature && le32(data, 4) == m.Header.Length && le32(data, 8) == m.Header.Version && le32(data, 12) == m.Header.SectionCount
+//@   ensures[C18] err == nil && 0 <= a && a < len(m.Sections) ==> le32(data, 16+32*a) == m.Sections[a].DataOffset && le32(data, 20+32*a) == m.Sections[a].DataSize && le64(data, 24+32*a) == m.Sections[a].MemoryBase && le64(data, 32+32*a) == m.Sections[a].MemorySize && le32(data, 40+32*a) == m.Sections[a].SectionType && le32(data, 44+32*a) == m.Sections[a].Attributes
+//@   ensures[C18] err == nil && 16 + 32 * len(m.Sections) <= a && a < len(data) ==> bytesAt(data, a) == old(bytesAt(data, a))
+//@   ensures[C18] err != nil && 0 <= a && a < len(data) ==> bytesAt(data, a) == old(bytesAt(data, a))
+//@   loop 1 invariant 0 <= i && i <= m.Header.SectionCount
+//@   loop 1 invariant le32(data, 0) == m.Header.Signature && le32(data, 4) == m.Header.Length && le32(data, 8) == m.Header.Version && le32(data, 12) == m.Header.SectionCount
+//@   loop 1 invariant 0 <= a && a < i ==> le32(data, 16+32*a) == m.Sections[a].DataOffset && le32(data, 20+32*a) == m.Sections[a].DataSize && le64(data, 24+32*a) == m.Sections[a].MemoryBase && le64(data, 32+32*a) == m.Sections[a].MemorySize && le32(data, 40+32*a) == m.Sections[a].SectionType && le32(data, 44+32*a) == m.Sections[a].Attributes
+//@   loop 1 invariant 16 + 32 * i <= a && a < len(data) ==> bytesAt(data, a) == old(bytesAt(data, a))
+//@   loop 1 decreases[C08] m.Header.SectionCount - i
